@@ -45,6 +45,9 @@ let () =
         | "referrers" -> url_referrers p r
         | "taglist" -> url_taglist p r
         | "upload" -> url_upload p r
+        | "base" -> url_base p r
+        | "catalog" -> url_catalog p r
+        | "repobase" -> url_repo_base p r
         | _ -> failwith "kind" in
       let hx s = match s with [] -> "-" | _ -> hex_of_str s in
       let ho o = match o with None -> "none" | Some s -> "some:" ^ hx s in
